@@ -1,8 +1,12 @@
 package main
 
 import (
+	"fmt"
+	"strings"
+
 	"verifharness/internal/idlgen"
 	"verifharness/internal/values"
+	"verifharness/internal/vl"
 )
 
 // The DIRECTED program: the smallest types on which the known defects show, plus one struct with every field
@@ -60,8 +64,70 @@ func directedProgram() *idlgen.Program {
 			fld(3, idlgen.Default, listOf(listOf(named("K"))), "ll"), fld(4, idlgen.Default, listOf(named("U")), "lu"),
 			fld(5, idlgen.Default, setOf(named("K")), "sk"),
 		}},
+		// 9, 10: fields named like the generated helpers and methods (scope_internal.go reserves Field<id>DeepEqual, DeepEqual,
+		// Get*/IsSet*): they must be renamed (trailing underscore), the package must compile, DeepEqual must still be
+		// structural equality
+		{Kind: 's', Name: "N0", Fields: []*idlgen.Field{
+			fld(1, idlgen.Default, i32, "field1_deep_equal"), fld(2, idlgen.Optional, str, "Field3DeepEqual"),
+			fld(3, idlgen.Default, listOf(i32), "field2_deep_equal"), fld(4, idlgen.Default, i32, "deep_equal"),
+			fld(5, idlgen.Optional, i32, "DeepEqual"), fld(6, idlgen.Optional, i32, "x"),
+			fld(7, idlgen.Default, ty(idlgen.Bool), "is_set_x"), fld(8, idlgen.Default, str, "get_x"),
+			fld(9, idlgen.Default, mapOf(i32, i32), "field9_deep_equal"), fld(10, idlgen.Default, named("K"), "field7_deep_equal"),
+			fld(11, idlgen.Optional, named("K"), "Field11DeepEqual"),
+		}},
+		{Kind: 'u', Name: "NU", Fields: []*idlgen.Field{fld(1, idlgen.Default, i32, "field2_deep_equal"), fld(2, idlgen.Default, str, "Field1DeepEqual")}},
 	}
 	return &idlgen.Program{Files: []*idlgen.File{f}}
+}
+
+// helperLikeNames renames some fields of some structs of a generated program to names that collide with the methods
+// thriftgo generates for the struct (Field<N>DeepEqual for N among the struct's own ids and others, DeepEqual, Get<F>,
+// IsSet<F>). Only for programs generated WITHOUT struct literals (a literal refers to fields by name).
+func helperLikeNames(r *vl.Rng, p *idlgen.Program, count func(string)) {
+	for _, f := range p.Files {
+		for _, st := range f.Structs {
+			if len(st.Fields) == 0 || !r.Chance(60) {
+				continue
+			}
+			used := map[string]bool{}
+			for _, fd := range st.Fields {
+				used[fd.Name] = true
+			}
+			for n := 0; n < 3; n++ {
+				fd := st.Fields[r.Intn(len(st.Fields))]
+				other := st.Fields[r.Intn(len(st.Fields))]
+				id := int(other.ID)
+				if id < 0 {
+					id = -id
+				}
+				if r.Chance(30) {
+					id = 1 + r.Intn(12)
+				}
+				var name, kind string
+				switch r.Intn(6) {
+				case 0:
+					name, kind = fmt.Sprintf("field%d_deep_equal", id), "field<N>_deep_equal"
+				case 1:
+					name, kind = fmt.Sprintf("Field%dDeepEqual", id), "Field<N>DeepEqual"
+				case 2:
+					name, kind = "deep_equal", "deep_equal"
+				case 3:
+					name, kind = "DeepEqual", "DeepEqual"
+				case 4:
+					name, kind = "is_set_"+other.Name, "is_set_<f>"
+				case 5:
+					name, kind = "get_"+other.Name, "get_<f>"
+				}
+				if used[name] || other == fd && (strings.HasPrefix(name, "is_set_") || strings.HasPrefix(name, "get_")) {
+					continue
+				}
+				used[name] = true
+				delete(used, fd.Name)
+				fd.Name = name
+				count("helper-like-name." + kind)
+			}
+		}
+	}
 }
 
 // directedValueProgram: no container holds a struct, so `value_type_in_container,gen_deep_equal` compiles (BATCH-notes D14)
@@ -91,6 +157,8 @@ const (
 	dU
 	dAll
 	dD5
+	dN0
+	dNU
 )
 
 type witness struct {
@@ -101,6 +169,12 @@ type witness struct {
 }
 
 func i(n int64) *values.Value { return values.Int(n) }
+
+// n0 is a value of N0 with field 1 = a and field 9 = {1: b}
+func n0(a, b int64) *values.Value {
+	n := values.Nil
+	return values.Record(i(a), n(), values.List(i(3)), i(4), n(), i(6), values.Bool(true), values.Str("g"), values.Map(i(1), i(b)), values.Record(i(7)), n())
+}
 
 // directedWitnesses: minimal inputs of the suspected defects first, then boundary pairs that must be fine.
 func directedWitnesses() []witness {
@@ -145,5 +219,10 @@ func directedWitnesses() []witness {
 		{dD5, "ES", R(n(), M(values.Str("a"), k(1), values.Str("b"), k(2)), n(), n(), n()), R(n(), M(values.Str("a"), k(1), values.Str("b"), k(3)), n(), n(), n()), "map<string,K> {a:shared,b:{2}} vs {a:shared,b:{3}}"},
 		{dD5, "ES", R(n(), n(), n(), n(), values.Set(k(1), k(2))), R(n(), n(), n(), n(), values.Set(k(1), k(3))), "set<K> [shared,{2}] vs [shared,{3}]"},
 		{dD5, "ES", R(L(k(1), k(2)), n(), n(), n(), n()), R(L(k(1), k(2)), n(), n(), n(), n()), "list<K> all shared"},
+		// fields named like the generated helpers
+		{dN0, "E", n0(1, 5), n0(1, 5), "helper-like field names: equal"},
+		{dN0, "E", n0(1, 5), n0(2, 5), "helper-like field names: field1_deep_equal differs"},
+		{dN0, "E", n0(1, 5), n0(1, 6), "helper-like field names: field9_deep_equal differs"},
+		{dNU, "E", R(i(1), n()), R(i(2), n()), "helper-like member names (union)"},
 	}
 }
